@@ -211,8 +211,8 @@ func (m *monitor) missing(expected []dkey) string {
 	defer m.mu.Unlock()
 	miss := map[string]int{}
 	for i := 0; i < m.w.n; i++ {
-		if m.w.roles[i] != roleHonest {
-			continue
+		if m.w.roles[i] != roleHonest || m.w.p.BNFlaky[i] {
+			continue // pacing waits for healthy honest nodes only
 		}
 		for _, k := range expected {
 			if m.bcastBy[k][i] == 0 {
@@ -532,8 +532,8 @@ func (m *monitor) allDone(expected []dkey) bool {
 	m.mu.Lock()
 	defer m.mu.Unlock()
 	for i := 0; i < m.w.n; i++ {
-		if m.w.roles[i] != roleHonest {
-			continue
+		if m.w.roles[i] != roleHonest || m.w.p.BNFlaky[i] {
+			continue // pacing waits for healthy honest nodes only
 		}
 		for _, k := range expected {
 			if m.bcastBy[k][i] == 0 {
